@@ -309,7 +309,7 @@ class Program:
         if not cands:
             # the header may carry the shorter (trimmed) path: `MODIFIER_SHIFT` vs `context::MODIFIER_SHIFT`
             for fsegs, f in self.inherent:
-                if fsegs and len(fsegs) < len(segs) and segs[-len(fsegs):] == fsegs and f.kind in ("const", "static"):
+                if fsegs and len(fsegs) < len(segs) and segs[-len(fsegs):] == fsegs and f.kind in ("const", "static", "promoted"):
                     cands.append(f)
         if len(cands) == 1:
             return cands[0]
